@@ -529,6 +529,11 @@ func (m *Model) forCases() *loopCaseResult {
 		noInit   bool
 		condFail int // the condition fails at its k-th evaluation (0: never)
 		postFail int // the post clause fails at its k-th evaluation
+		// postOwn: no init clause, and the post clause is `n++` on a variable n of the enclosing scope: the step is
+		// applied to n. postAssign: the post clause is an assignment (it binds its variable itself and yields nil):
+		// the loop does not bind the nil again
+		postOwn    bool
+		postAssign bool
 	}
 	scens := []scen{
 		{name: "two passes", limit: 2},
@@ -545,6 +550,13 @@ func (m *Model) forCases() *loopCaseResult {
 		{name: "the condition fails when first evaluated", limit: 2, condFail: 1, alt: true},
 		{name: "the condition fails after the first pass", limit: 2, condFail: -1},
 		{name: "the post clause fails after the first pass", limit: 2, postFail: 1},
+		{name: "no init clause, the post clause steps a variable of the enclosing scope (n++), two passes", limit: 2, noInit: true, postOwn: true},
+		{name: "the post clause is an assignment (i = i + 2), two passes", limit: 2, postAssign: true},
+	}
+	exprStmtT, postfixT := m.namedType("ast", "ExpressionStmt"), m.namedType("ast", "PostfixExp")
+	fExpr, fLeft := -1, -1
+	if exprStmtT != nil && postfixT != nil {
+		fExpr, fLeft = w.fieldIdx(exprStmtT, "Expression"), w.fieldIdx(postfixT, "Left")
 	}
 	// every combination of body results over loops of 1 and 2 passes, with and without an @else body / a post clause
 	for n := 1; n <= 2; n++ {
@@ -557,7 +569,21 @@ func (m *Model) forCases() *loopCaseResult {
 	for _, sc := range scens {
 		r.cases++
 		inode := &iStruct{typ: assignT, fields: map[int]any{aName: &iStruct{typ: identT, fields: map[int]any{iVal: constant.MakeString("i")}}}}
-		cnode, pnode := iObj{"condition"}, iObj{"post clause"}
+		cnode := iObj{"condition"}
+		var pnode any = iObj{"post clause"}
+		// the usual post clause: an expression statement whose expression is not a postfix step of a variable
+		if infixT := m.namedType("ast", "InfixExp"); infixT != nil && fExpr >= 0 {
+			pnode = &iStruct{typ: exprStmtT, fields: map[int]any{fExpr: &iStruct{typ: infixT, fields: map[int]any{}}}}
+		}
+		if sc.postOwn {
+			if fExpr < 0 || fLeft < 0 {
+				continue
+			}
+			pnode = &iStruct{typ: exprStmtT, fields: map[int]any{fExpr: &iStruct{typ: postfixT, fields: map[int]any{fLeft: &iStruct{typ: identT, fields: map[int]any{iVal: constant.MakeString("n")}}}}}}
+		}
+		if sc.postAssign {
+			pnode = &iStruct{typ: assignT, fields: map[int]any{aName: &iStruct{typ: identT, fields: map[int]any{iVal: constant.MakeString("i")}}}}
+		}
 		blk := w.bodyAST()
 		alt := &iStruct{typ: blockStmtT, fields: map[int]any{}}
 		node := &iStruct{typ: forT, fields: map[int]any{fBlk: blk}}
@@ -573,6 +599,14 @@ func (m *Model) forCases() *loopCaseResult {
 		setOrNil(fPost, !sc.noPost, pnode)
 		setOrNil(fAlt, sc.alt, alt)
 		envIn := w.newEnv()
+		if sc.postOwn {
+			if mp, isM := envIn.fields[w.fStore].(*iMap); isM && mp.vals != nil {
+				k := constant.MakeString("n")
+				mp.keys = append(mp.keys, k.ExactString())
+				mp.vals[k.ExactString()] = w.obj("Int", constant.MakeInt64(0))
+				mp.kval[k.ExactString()] = k
+			}
+		}
 		altRes := w.html("<ELSE>")
 		passes, posts, conds, inits, nAlt := 0, 0, 0, 0, 0
 		var events []string
@@ -612,9 +646,21 @@ func (m *Model) forCases() *loopCaseResult {
 				conds++
 				events = append(events, "cond")
 				checkScope("the condition", args[2])
-				if problem == "" && !sc.noInit && !sc.noPost && posts > 0 {
+				if problem == "" && !sc.noInit && !sc.noPost && !sc.postAssign && posts > 0 {
 					if v, ok := w.lookup(args[2], "i", envIn); !ok || v != any(postResults[posts-1]) {
 						problem = fmt.Sprintf("after post clause #%d the loop variable does not hold its result when the condition is evaluated", posts)
+					}
+				}
+				if problem == "" && sc.postOwn && posts > 0 {
+					if v, ok := w.lookup(args[2], "n", envIn); !ok || v != any(postResults[posts-1]) {
+						problem = fmt.Sprintf("after post clause #%d (`n++` in a loop without an init clause) the variable n does not hold the stepped value when the condition is evaluated: the step is lost and `{{ n = 0 }}@for(; n < 3; n++)` never ends", posts)
+					}
+				}
+				if problem == "" && sc.postAssign && posts > 0 {
+					if v, ok := w.lookup(args[2], "i", envIn); ok {
+						if o, isO := v.(*iStruct); isO && o.typ == w.objT["Nil"] {
+							problem = "after an assignment as post clause the loop variable is bound to the nil the assignment yields"
+						}
 					}
 				}
 				if (sc.condFail > 0 && conds == sc.condFail) || (sc.condFail == -1 && passes == 1) {
@@ -622,13 +668,16 @@ func (m *Model) forCases() *loopCaseResult {
 					return condErr, true
 				}
 				return w.obj("Bool", constant.MakeBool(passes < sc.limit)), true
-			case any(pnode):
+			case pnode:
 				posts++
 				events = append(events, "post")
 				checkScope("the post clause", args[2])
 				if sc.postFail > 0 && posts == sc.postFail {
 					postErr = w.obj("Error", nil)
 					return postErr, true
+				}
+				if sc.postAssign {
+					return w.obj("Nil", nil), true // an assignment binds its variable itself and yields nil
 				}
 				pr := w.obj("Int", constant.MakeInt64(int64(posts)))
 				postResults = append(postResults, pr)
